@@ -8,7 +8,6 @@ import (
 
 	"github.com/ChrisTrenkamp/xsel/node"
 	"github.com/ChrisTrenkamp/xsel/store"
-	"golang.org/x/text/language"
 )
 
 type Function func(context Context, args ...Result) (Result, error)
@@ -171,9 +170,18 @@ func getName(nodeSet NodeSet, ok bool, nameType nameType) (Result, error) {
 		return String(""), nil
 	}
 
+	// The first node in document order: a node-set selected by a reverse
+	// axis is in reverse order.
 	firstNode := nodeSet[0]
 
-	if n, ok := firstNode.Node().(node.NamedNode); ok {
+	for _, c := range nodeSet[1:] {
+		if c.Pos() < firstNode.Pos() {
+			firstNode = c
+		}
+	}
+
+	switch n := firstNode.Node().(type) {
+	case node.NamedNode:
 		if nameType == localOnly || (nameType == localAndNamespace && n.Space() == "") {
 			return String(n.Local()), nil
 		}
@@ -183,6 +191,18 @@ func getName(nodeSet NodeSet, ok bool, nameType nameType) (Result, error) {
 		}
 
 		return String(fmt.Sprintf("{%s}%s", n.Space(), n.Local())), nil
+	case node.ProcInst:
+		// The expanded-name of a processing instruction has its target as
+		// local part and no namespace.
+		if nameType != namespaceOnly {
+			return String(n.Target()), nil
+		}
+	case node.Namespace:
+		// The expanded-name of a namespace node has its prefix as local part
+		// and no namespace.
+		if nameType != namespaceOnly {
+			return String(n.Prefix()), nil
+		}
 	}
 
 	return String(""), nil
@@ -421,23 +441,29 @@ func lang(context Context, args ...Result) (Result, error) {
 	return Bool(false), nil
 }
 
+// checkLang reports whether the xml:lang value targStr is the language
+// srcStr or a sublanguage of it: equal to srcStr, or starting with srcStr
+// followed by '-', ignoring ASCII case (XPath 1.0 section 4.3).
 func checkLang(srcStr, targStr string) Bool {
-	srcLang := language.Make(srcStr)
-	srcRegion, srcRegionConf := srcLang.Region()
-
-	targLang := language.Make(targStr)
-	targRegion, targRegionConf := targLang.Region()
-
-	if srcRegionConf == language.Exact && targRegionConf != language.Exact {
+	if len(targStr) < len(srcStr) {
 		return Bool(false)
 	}
 
-	if srcRegion != targRegion && srcRegionConf == language.Exact && targRegionConf == language.Exact {
-		return Bool(false)
+	for i := 0; i < len(srcStr); i++ {
+		if asciiLower(srcStr[i]) != asciiLower(targStr[i]) {
+			return Bool(false)
+		}
 	}
 
-	_, _, conf := language.NewMatcher([]language.Tag{srcLang}).Match(targLang)
-	return Bool(conf >= language.High)
+	return Bool(len(targStr) == len(srcStr) || targStr[len(srcStr)] == '-')
+}
+
+func asciiLower(c byte) byte {
+	if c >= 'A' && c <= 'Z' {
+		return c + ('a' - 'A')
+	}
+
+	return c
 }
 
 func number0(context Context, args ...Result) (Result, error) {
